@@ -233,6 +233,18 @@ inline std::string huge_ascii_host(ByteSource& b) {
   return s;
 }
 
+// Non-ASCII hosts that stay under the IDNA input limit but whose ASCII form (3x longer:
+// "\xc3\xa9." -> "xn--9ca.") is far above it.
+inline std::string huge_idn_host(ByteSource& b) {
+  static const char* units[] = {"\xc3\xa9.", "\xc3\xbc.", "\xc3\x9f.", "a.\xc3\xa9.", "\xe6\x97\xa5."};
+  static const unsigned sizes[] = {6000, 9000, 16380, 16384, 16386, 3000};
+  std::string u = b.pick(units);
+  unsigned t = b.pick(sizes);
+  std::string s = repeat(u, t / u.size());
+  s += b.coin() ? "com" : "\xc3\xa9";
+  return s;
+}
+
 inline std::string host(ByteSource& b) {
   static const unsigned w[] = {40, 12, 10, 12, 8, 8, 4, 4};
   std::string s;
@@ -273,7 +285,7 @@ inline std::string host(ByteSource& b) {
   // with the switch off): [0,14) pad, [14,18) huge host when enabled
   unsigned r = 255u - b.u8();
   if (r < 14) s = pad_to(b, s);
-  else if (g_huge_hosts && r < 18) s = huge_ascii_host(b);
+  else if (g_huge_hosts && r < 18) s = b.chance(64) ? huge_idn_host(b) : huge_ascii_host(b);
   return s;
 }
 
